@@ -562,6 +562,15 @@ void hx_gen(Rng &rng, const std::string &tier)
             stat("gen_exception");
         }
     }
+    // Subs objects whose variable is the differentiation variable itself (see c10_gen.h)
+    for (int i = 0; i < 40 * scale; i++) {
+        try {
+            std::string xn = g.r.coin(3, 4) ? "x" : "y";
+            emit_diff(g, binder_bound_var(g, xn), xn, "binder-bound-var");
+        } catch (const std::exception &) {
+            stat("gen_exception");
+        }
+    }
     // polynomial classes
     for (int i = 0; i < 40 * scale; i++) {
         static const char *kinds[] = {"int", "rat", "expr"};
